@@ -273,7 +273,7 @@ PROPS["C02"] = {
              "depth>=2 or a service with a path parameter. Distinct by hash of the rendered sources."),
     "assumptions": ["README: field numbers are 1-based declaration positions; inline types nest under their parent message named CamelCase(field) unless overridden; enum prefix defaults to SCREAMING_SNAKE(name)_"],
     "lanes": [
-        lane("TestContract", "contract", 400, 2000, shards=16, must_classes=["multi-file-package", "ref-cross-package", "inline-depth>=2", "path-parameter", "topic:reqres", "topic:upsert", "topic:event", "reqres-multi", "method-options", "service-options", "enum-explicit-zero", "inline-name-override"]),
+        lane("TestContract", "contract", 400, 2000, shards=16, must_classes=["multi-file-package", "ref-cross-package", "inline-depth>=2", "path-parameter", "topic:reqres", "topic:upsert", "topic:event", "reqres-multi", "method-options", "service-options", "enum-explicit-zero", "inline-shadows-type", "inline-shadows-type:with-reference", "inline-name-override"]),
         lane("TestMixed", "mixed", 300, 2000, shards=8, must_classes=["target:proto:object", "target:proto:enum", "target:other-package", "proto-uses-j5s", "import:alias", "import:file", "container:map"]),
     ],
 }
